@@ -389,6 +389,7 @@ fn piecewise(tape: &[u32], st: &mut Stats) -> CaseResult {
     // points
     let mut points: Vec<Vec<f64>> = vec![];
     let mut refs: Vec<f64> = vec![];
+    let mut senss: Vec<f64> = vec![];
     let mut branch_sigs: std::collections::BTreeSet<Vec<bool>> = Default::default();
     let mut tries = 0;
     while points.len() < 8 && tries < 30 {
@@ -403,9 +404,19 @@ fn piecewise(tape: &[u32], st: &mut Stats) -> CaseResult {
         let mut ev = Ev { ok: true, branches: vec![] };
         let r = eval(&tree, &full, wrt, &mut ev);
         if let (true, VN::F(_, d)) = (ev.ok, &r) {
-            points.push(used.iter().map(|i| full[*i]).collect());
-            refs.push(*d);
-            branch_sigs.insert(ev.branches.clone());
+            let f = |q: &[f64]| {
+                let mut e2 = Ev { ok: true, branches: vec![] };
+                match eval(&tree, q, wrt, &mut e2) {
+                    VN::F(_, dd) if e2.ok => Some(dd),
+                    _ => None,
+                }
+            };
+            if let Some(sens) = crate::calc::sensitivity(&f, &full) {
+                points.push(used.iter().map(|i| full[*i]).collect());
+                refs.push(*d);
+                senss.push(sens);
+                branch_sigs.insert(ev.branches.clone());
+            }
         }
     }
     let pw = has_piecewise(&tree);
@@ -462,7 +473,7 @@ fn piecewise(tape: &[u32], st: &mut Stats) -> CaseResult {
                     _ => None,
                 };
                 match num {
-                    Some(x) if close(x, refs[k], 1e-6) => {}
+                    Some(x) if crate::calc::close_cond(x, refs[k], 1e-6, senss[k]) => {}
                     _ => {
                         return Err(fail(
                             if pw { "C18/piecewise-derivative" } else { "C18/value-derivative" },
